@@ -49,6 +49,15 @@ class Ctx:
         return o
 
 
+def _last_selftest():
+    p = os.path.join(VERIF, "selftest", "last_run.json")
+    try:
+        with open(p) as f:
+            return json.load(f)
+    except (OSError, ValueError):
+        return None
+
+
 def load_known():
     p = os.path.join(VERIF, "known_findings.json")
     if not os.path.exists(p):
@@ -194,6 +203,8 @@ def run_property(pid, tier, seed=0, only_rule=None, quiet=False, repo=None, writ
                 "known_findings_hit": [o.key for o, _ in known_hit],
                 "anchor_failures": anchor_failures,
                 "mutants_re_detected": liveness,
+                "selftest_last_complete_run": _last_selftest(),
+                "helpers_inlined": {k: v for k, v in list(getattr(F, "inlined", {}).items())[:20]},
                 "exhaustive": True,
             },
             "assumptions": getattr(mod, "ASSUMPTIONS", []),
